@@ -230,7 +230,7 @@ class Ctx:
         self.cov["trace_events"] += n
         return n
 
-    def check_trace(self, module, cfg, trace, what, must_have=(), deque=False, timeout=3600, env_extra=None):
+    def check_trace(self, module, cfg, trace, what, must_have=(), deque=False, timeout=3600, env_extra=None, run_marker="Reset"):
         """Validate one recorded (concatenated) trace; a rejection becomes a violation whose replay
         file is the slice of the trace from the last Reset to the first unmatched line."""
         lines = open(trace).read().splitlines()
@@ -240,7 +240,7 @@ class Ctx:
             m = re.search(r'"ev":"([A-Za-z]+)"', ln)
             if m:
                 evs.add(m.group(1))
-                if m.group(1) == "Reset":
+                if m.group(1) == run_marker:
                     nreset += 1
         for ev in must_have:
             if ev not in evs:
@@ -261,7 +261,7 @@ class Ctx:
             hw = max(1, hw - 1)
         start = 0
         for i in range(min(hw, len(lines)) - 1, -1, -1):
-            if '"ev":"Reset"' in lines[i]:
+            if '"ev":"%s"' % run_marker in lines[i]:
                 start = i
                 break
         sl = lines[start:hw]
